@@ -274,6 +274,10 @@ func (g *Governance) Plan(c *Ctx) []hist.TxSpec {
 					// the goal was met: nothing may leave escrow before finalisation
 					out = append(out, g.withdrawFunds(c, p, us[4], us[4], "7", "withdraw while voting (must fail)"))
 				}
+				if age == 4 {
+					// the funding deadline has not passed yet, votes have been cast: funding is over all the same
+					out = append(out, g.fund(c, p, us[5%len(us)], "3", "fund a proposal that is being voted on (must fail)"))
+				}
 				// one or two validators vote per block, biggest first
 				idx := int(age-3) * 2
 				for k := idx; k < idx+2 && k >= 0 && k < len(genVals); k++ {
